@@ -75,7 +75,7 @@ pub enum Family {
     /// comments, 5 block nesting depth inside one function, 6 switch cases / loops with calls,
     /// 7 let-bound expressions each used twice by the next (a DAG with 2^n paths), 8 call results as
     /// call arguments nested n deep, 9 one expression of n terms that are calls,
-    /// 10 n bind groups.
+    /// 10 n bind groups, 11 an unused prelude (push constant, globals, helpers) over a diamond.
     Shapes { shape: u8, n: u32 },
     /// Programs that are REJECTED, at size: 0 hundreds of bindings but no group 0, 1 hundreds of
     /// bindings and one duplicate at the very end, 2 a large valid program with a syntax error in
@@ -117,7 +117,8 @@ impl Family {
             Family::Shapes { shape: 7, .. } => "expression_dag",
             Family::Shapes { shape: 8, .. } => "nested_call_arguments",
             Family::Shapes { shape: 9, .. } => "long_expression_chain",
-            Family::Shapes { .. } => "many_bind_groups",
+            Family::Shapes { shape: 10, .. } => "many_bind_groups",
+            Family::Shapes { .. } => "unused_prelude_over_diamond",
             Family::GlobalsGraph { .. } => "globals_x_call_graph",
             Family::Chain { pure_helpers: true, .. } => "chain_pure",
             Family::Diamond { pure_helpers: true, .. } => "diamond_pure",
@@ -560,7 +561,7 @@ pub fn source(family: &Family) -> String {
         }
         Family::Shapes { shape, n } => {
             let n = (*n).max(1);
-            match shape % 11 {
+            match shape % 12 {
                 0 => {
                     let depth = n.min(24);
                     let mut ty = "f32".to_string();
@@ -644,6 +645,26 @@ pub fn source(family: &Family) -> String {
                         e = if level % 2 == 0 { format!("na({e})") } else { format!("nb({e}, 0.5)") };
                     }
                     let _ = writeln!(out, "@compute @workgroup_size(1)\nfn cs_main() {{\n    acc_buf[0] = {e};\n}}");
+                }
+                11 => {
+                    // Declared but never used: a push constant block, a uniform, a storage buffer
+                    // and helper functions from a shared prelude, in front of a diamond n deep.
+                    // Whatever falls back to "look again, more carefully" when a name is not found
+                    // among the used ones walks the call graph once more - without the memo.
+                    let depth = n.min(64);
+                    let _ = writeln!(out, "struct PreludePush {{\n    tint: vec4<f32>,\n    frame: u32,\n}}");
+                    let _ = writeln!(out, "var<push_constant> prelude_push: PreludePush;");
+                    out.push_str(GLOBALS);
+                    let _ = writeln!(out, "@group(0) @binding(2) var<uniform> prelude_unused_uniform: vec4<f32>;");
+                    let _ = writeln!(out, "@group(0) @binding(3) var<storage, read> prelude_unused_buffer: array<vec4<f32>>;");
+                    let _ = writeln!(out, "fn prelude_unused_helper(x: f32) -> f32 {{\n    return x * prelude_unused_uniform.x;\n}}");
+                    let _ = writeln!(out, "fn d0(x: f32) -> f32 {{\n    return x + acc_buf[1];\n}}");
+                    for level in 1..=depth {
+                        let p = level - 1;
+                        let _ = writeln!(out, "fn d{level}(x: f32) -> f32 {{\n    var r = d{p}(x);\n    r = r + d{p}(x * 0.5);\n    return r;\n}}");
+                    }
+                    let _ = writeln!(out, "@compute @workgroup_size(1)\nfn cs_main() {{\n    acc_buf[0] = d{depth}(params.x);\n}}");
+                    let _ = writeln!(out, "@fragment\nfn fs_main() -> @location(0) vec4<f32> {{\n    return vec4<f32>(d{depth}(params.y));\n}}");
                 }
                 10 => {
                     // n bind groups of one to three bindings each: whatever enumerates subsets or
@@ -1160,6 +1181,7 @@ pub fn systematic_families() -> Vec<Family> {
         (8, &[4, 24, 48]),
         (9, &[10, 120, 400]),
         (10, &[3, 24, 64]),
+        (11, &[4, 30, 64]),
     ] {
         for n in sizes {
             v.push(Family::Shapes { shape, n: *n });
@@ -1201,8 +1223,8 @@ pub fn random_family(rng: &mut Rng) -> Family {
             helpers: rng.range(0, 150) as u32,
         },
         4 if rng.chance(300) => {
-            let shape = rng.below(11) as u8;
-            let max = [24, 4000, 400, 600, 3000, 60, 500, 64, 48, 400, 64][shape as usize];
+            let shape = rng.below(12) as u8;
+            let max = [24, 4000, 400, 600, 3000, 60, 500, 64, 48, 400, 64, 64][shape as usize];
             Family::Shapes {
                 shape,
                 n: rng.range(1, max) as u32,
